@@ -21,7 +21,9 @@ NMember(e) == IF e.args = <<>> THEN 1
 \* first char; 3NJ+1 missing (last) argument; 3NJ+2..3NJ+1+NJ keyword + junk glued; 4NJ+2 keyword
 \* without its last character; 4NJ+3 keyword glued to the argument
 NJ == Len(Junk)
-NCorr == 4 * NJ + 3
+\* ids above 4NJ+3: a letter a..z / A..Z appended to the argument (sweeps every possible unit letter)
+Letters == Cp("abcdefghijklmnopqrstuvwxyzABCDEFGHIJKLMNOPQRSTUVWXYZ")
+NCorr == 4 * NJ + 3 + Len(Letters)
 
 Init == vSeq = <<>>
 Next ==
@@ -37,9 +39,10 @@ Primary ==
       \* leading arguments (all but the last) use the first member of their language
       lead == Flatten([k \in 1..(Len(e.args) - 1) |-> <<cSP>> \o OneMember(e.args[k])])
       w == IF hasArg THEN Members(LastLang(e))[vSeq[2]] ELSE <<>>
-      j == IF c = 0 THEN 0 ELSE ((c - 1) % NJ) + 1
+      j == IF c = 0 \/ c > 4 * NJ + 3 THEN 0 ELSE ((c - 1) % NJ) + 1
       jc == IF j = 0 THEN <<>> ELSE <<Junk[j]>>
       arg == IF c = 0 THEN w
+             ELSE IF c > 4 * NJ + 3 THEN w \o <<Letters[c - (4 * NJ + 3)]>>
              ELSE IF c <= NJ THEN w \o jc
              ELSE IF c <= 2 * NJ THEN jc \o w
              ELSE IF c <= 3 * NJ THEN (IF w = <<>> THEN jc ELSE <<w[1]>> \o jc \o Tail(w))
@@ -50,6 +53,7 @@ Primary ==
   IN IF c = 3 * NJ + 1 THEN kw \o lead                          \* last argument missing
      ELSE IF c = 4 * NJ + 3 THEN kw \o lead \o arg              \* glued
      ELSE IF hasArg THEN kw \o lead \o <<cSP>> \o arg
+     ELSE IF c > 4 * NJ + 3 THEN kw \o <<Letters[c - (4 * NJ + 3)]>>
      ELSE IF c >= 1 /\ c <= 3 * NJ THEN kw \o jc                \* keyword-only: junk glued to keyword
      ELSE kw
 
